@@ -204,6 +204,11 @@ def restart {κ : Type} [DecidableEq κ] (H : Pt → κ) (h : State κ) : Option
   (doReload H h).map (fun h' =>
     { h := h', snap := h'.db, counter := h'.db.length, maximum := 0, calls := [], ok := true })
 
+/-- OUTSIDE the property (probe only): a new process that finds a file left by another run and
+    neither erases nor loads it: empty database, empty pending buffer, the old file. -/
+def restartStale {κ : Type} (h : State κ) : St κ :=
+  { h := { db := [], pend := [], file := h.file }, snap := [], counter := 0, maximum := 0, calls := [], ok := true }
+
 /-- The events before the `k`-th `Call` (`k ≥ 1`): what happened before the process died inside
     its `k`-th discipline execution. The whole trace when there are fewer than `k` calls. -/
 def truncateAtCall : Nat → List Ev → List Ev
